@@ -20,7 +20,7 @@ pub fn spec() -> Spec {
     Spec {
         prop: "C12",
         level: "exploration",
-        rule: "Real server via start() on loopback, raw HTTP so the Authorization header is arbitrary. Enumerated completely: every registered method (real method table) x {call, notification, batch element first/middle/last mixed with public calls, batch of only notifications; for indexer-only methods also: string id, batch of one, last of a 31-element batch, two indexer-only calls in one batch, notification between public calls, an element that is not a JSON-RPC request in front of the call} x {no header, wrong user, wrong password, right user + empty password, lower-case scheme, bad base64, two wrong headers, doubled space, suffix-extended credentials, correct} x {auth on, off}. Deny-listed + not authorised => JSON-RPC error 401 for that element and no effect (state digest through authorised reads, incl. an executing read that would stall on an open block, equal before/after); everything else served (no 401). Completeness: each method is also invoked authorised with well-formed parameters on a scratch server and classified by effect (Obs, open block, pool); every method classified mutating must have been refused in the unauthorised sweep; afterwards a fixed authorised script must answer exactly as on a twin server that never saw the sweep. Non-trivial = matrix cell whose expectation is 'refused' or 'state must be unchanged'.",
+        rule: "Real server via start() on loopback, raw HTTP so the Authorization header is arbitrary. Enumerated completely: every registered method (real method table) x {call, notification, batch element first/middle/last mixed with public calls, batch of only notifications; for indexer-only methods also: string id, batch of one, last of a 31-element batch, two indexer-only calls in one batch, notification between public calls, an element that is not a JSON-RPC request in front of the call, a batch of exactly the batch limit and of one less with the call at a varying position} x {no header, wrong user, wrong password, right user + empty password, lower-case scheme, bad base64, two wrong headers, doubled space, suffix-extended credentials, correct} x {auth on, off}. Deny-listed + not authorised => JSON-RPC error 401 for that element and no effect (state digest through authorised reads, incl. an executing read that would stall on an open block, equal before/after); everything else served (no 401). Completeness: each method is also invoked authorised with well-formed parameters on a scratch server and classified by effect (Obs, open block, pool); every method classified mutating must have been refused in the unauthorised sweep; afterwards a fixed authorised script must answer exactly as on a twin server that never saw the sweep. Non-trivial = matrix cell whose expectation is 'refused' or 'state must be unchanged'.",
         assumptions: vec!["a request carrying two Authorization headers of which one is correct is not judged (HTTP leaves the choice to the server)".into()],
         exhaustive: true,
         min_nontrivial: 2,
@@ -214,7 +214,7 @@ fn sweep(ctx: &WorkerCtx, rep: &mut WorkerReport, auth: bool, methods: &[String]
     let t = Duration::from_secs(60);
     let mut dg = digest(&srv.addr, &dir);
     // the last five forms are only sent for indexer-only methods (they add nothing for public ones)
-    let forms = ["call", "notification", "batch-first", "batch-middle", "batch-last", "batch-notifications", "call-string-id", "batch-single", "batch-long-last", "batch-two-denied", "batch-notification-mixed", "batch-junk-before"];
+    let forms = ["call", "notification", "batch-first", "batch-middle", "batch-last", "batch-notifications", "call-string-id", "batch-single", "batch-long-last", "batch-two-denied", "batch-notification-mixed", "batch-junk-before", "batch-at-limit", "batch-below-limit"];
     'outer: for (vname, headers, authorised_hdr) in variants {
         let authorised = *authorised_hdr || !auth;
         for m in methods {
@@ -229,7 +229,7 @@ fn sweep(ctx: &WorkerCtx, rep: &mut WorkerReport, auth: bool, methods: &[String]
                 let notif = json!({"jsonrpc": "2.0", "method": m, "params": params});
                 let p1 = json!({"jsonrpc": "2.0", "id": 1, "method": "eth_chainId", "params": []});
                 let p2 = json!({"jsonrpc": "2.0", "id": 2, "method": "eth_blockNumber", "params": []});
-                let extended = ["call-string-id", "batch-single", "batch-long-last", "batch-two-denied", "batch-notification-mixed", "batch-junk-before"].contains(&form);
+                let extended = ["call-string-id", "batch-single", "batch-long-last", "batch-two-denied", "batch-notification-mixed", "batch-junk-before", "batch-at-limit", "batch-below-limit"].contains(&form);
                 if extended && !deny.contains(m) {
                     continue;
                 }
@@ -248,6 +248,14 @@ fn sweep(ctx: &WorkerCtx, rep: &mut WorkerReport, auth: bool, methods: &[String]
                     }
                     "batch-two-denied" => json!([json!({"jsonrpc": "2.0", "id": 8, "method": "brc20_clearCaches", "params": []}), p1, target]),
                     "batch-notification-mixed" => json!([p1, notif, p2]),
+                    "batch-at-limit" | "batch-below-limit" => {
+                        // the largest batch the server still executes (limit 50), and one element less
+                        let total = if form == "batch-at-limit" { 50 } else { 49 };
+                        let at = (st.n as usize * 7) % total;
+                        let mut v: Vec<Value> = (0..total - 1).map(|k| json!({"jsonrpc": "2.0", "id": 100 + k, "method": if k % 2 == 0 { "eth_chainId" } else { "eth_blockNumber" }, "params": []})).collect();
+                        v.insert(at, target.clone());
+                        Value::Array(v)
+                    }
                     "batch-junk-before" => {
                         // an element that is not a JSON-RPC request in front of the protected call
                         let junk = match st.n % 6 {
